@@ -7,10 +7,13 @@ Ev == Rec[l]
 Is(name) == l <= Len(Rec) /\ Rec[l].e = name /\ l' = l + 1
 TraceInit == l = 1 /\ CInit
 TReset == Is("ConReset") /\ CReset
-TCall  == Is("Call") /\ Call(IF Ev.op = "send" THEN [op |-> "send", dg |-> Ev.dg, len |-> Ev.len, sent |-> FALSE] ELSE Ev)
+TCall  == Is("Call") /\ Call(IF Ev.op = "send" THEN [op |-> "send", dg |-> Ev.dg, len |-> Ev.len, sent |-> FALSE]
+                              ELSE IF Ev.op = "write" THEN [op |-> "write", start |-> Ev.start, len |-> Ev.len, done |-> 0]
+                              ELSE Ev)
 TRet   == Is("Ret") /\ Ev.ok /\ Ret(Ev)
 TFill  == Is("DevFill") /\ DevFill(Ev.start, Ev.k)
-TTx    == Is("DevTx") /\ DevTx(Ev.dg, Ev.len, Ev.rl, Ev.wl)
+TTx    == Is("DevTx") /\ IF call.op = "write" THEN DevTxW(Ev.first, Ev.len, Ev.affine, Ev.rl, Ev.wl)
+                            ELSE DevTx(Ev.dg, Ev.len, Ev.rl, Ev.wl)
 TQAdd  == Is("QAdd") /\ IF Ev.q = 0 THEN Post ELSE UNCHANGED cvars
 TQPop  == Is("QPop") /\ IF Ev.q = 0 THEN Pickup(Ev.len) ELSE UNCHANGED cvars
 TDrop  == Is("Drop") /\ call = None /\ UNCHANGED cvars
